@@ -916,7 +916,16 @@ int __wrap_fclose(FILE *f) {
 // ---- libc calls of the library as preemption points (plans with sched.libc_yield): the copy loops of the getters and the
 // lookup loops of the state code have no other call between reading a pointer and using it. Non-ASan variants also get a
 // deterministic heap fill for the library's own allocations.
-static inline void libc_point() { Task *t = me; if (t && G.running && G.cur == t && G.p.libc_yield && t->sim_depth == 0) { SimScope simscope_; sim::maybe_preempt_at_call(); } }
+static inline void libc_point() {
+	Task *t = me;
+	if (t && G.running && G.cur == t && G.p.libc_yield && t->sim_depth == 0) {
+		SimScope simscope_;
+		static int dbg = -1; if (dbg < 0) dbg = getenv("VERIF_DEBUG_LIBC") ? 1 : 0;
+		uint64_t y0 = dbg ? G.st.yields[Y_FN] : 0;
+		sim::maybe_preempt_at_call();
+		if (dbg) fprintf(stderr, "[libc] task=%d api=%s step=%llu t=%llu preempted=%d\n", t->id, sim::current_api(), (unsigned long long) G.step, (unsigned long long) G.now, (int) (G.st.yields[Y_FN] != y0));
+	}
+}
 void *__wrap_malloc(size_t n) {
 	libc_point();
 	void *p = malloc(n);
